@@ -2,6 +2,8 @@ package driver
 
 import (
 	"bufio"
+	"runtime"
+	"sync/atomic"
 	"encoding/json"
 	"fmt"
 	"os"
@@ -82,6 +84,44 @@ func runOnce(eng Engine, rc *RunCtx) (o *Outcome) {
 	return eng(rc)
 }
 
+// ---- per-run wall-clock watchdog: a run of the code under test that does not finish (a kernel
+// spinning on degenerate values cannot be interrupted) is reported as a "hang" violation of the
+// current run, with the spinning function as key, and the worker exits with status 3.
+var (
+	wdStart   atomic.Int64 // unix nanos of the current run's start, 0 = idle
+	wdReport  func(class, key, msg string)
+	wdTimeout = 120 * time.Second
+)
+
+func startWatchdog() {
+	if v := envInt("VERIF_RUN_TIMEOUT_S", 0); v > 0 {
+		wdTimeout = time.Duration(v) * time.Second
+	}
+	go func() {
+		for {
+			time.Sleep(500 * time.Millisecond)
+			st := wdStart.Load()
+			if st == 0 || time.Since(time.Unix(0, st)) < wdTimeout {
+				continue
+			}
+			buf := make([]byte, 1<<20)
+			n := runtime.Stack(buf, true)
+			stacks := string(buf[:n])
+			site := "unknown"
+			for _, g := range strings.Split(stacks, "\n\n") {
+				if (strings.Contains(g, "[running") || strings.Contains(g, "[runnable")) && strings.Contains(g, "openwater-core/") {
+					site = crashSite(g)
+					break
+				}
+			}
+			if wdReport != nil {
+				wdReport("hang", "hang@"+site, fmt.Sprintf("the run did not finish within %v of wall-clock time; the code under test is busy in %s (a kernel iterating on degenerate values cannot be interrupted: the caller never gets an answer)", wdTimeout, site))
+			}
+			os.Exit(3)
+		}
+	}()
+}
+
 func TestWorker(t *testing.T) {
 	prop := os.Getenv("VERIF_PROP")
 	if prop == "" {
@@ -129,7 +169,13 @@ func TestWorker(t *testing.T) {
 			rc.W, rc.S = simrt.ReplayTape(rf.Work), simrt.ReplayTape(rf.Sched)
 		}
 		os.WriteFile(outPath+".cur", []byte(fmt.Sprintf("%d %d\n", rf.Index, rf.RunSeed)), 0644)
+		wdReport = func(class, key, msg string) {
+			emit(map[string]interface{}{"type": "replay", "class": class, "key": key, "message": msg})
+		}
+		startWatchdog()
+		wdStart.Store(time.Now().UnixNano())
 		o := runOnce(eng, rc)
+		wdStart.Store(0)
 		emit(map[string]interface{}{"type": "replay", "class": o.Class, "key": o.Key, "message": o.Msg, "extra": o.Extra})
 		return
 	}
@@ -145,6 +191,14 @@ func TestWorker(t *testing.T) {
 	const hashCap = 400000
 	cur, _ := os.Create(outPath + ".cur")
 	defer cur.Close()
+	var curIdx int
+	var curSeed uint64
+	wdReport = func(class, key, msg string) {
+		rf := &ReplayFile{Property: prop, Engine: engName, Class: class, Key: key, Message: msg, BaseSeed: base, Index: curIdx,
+			RunSeed: curSeed, Tier: tier, Mode: "generate", Race: simrt.RaceBuild}
+		emit(map[string]interface{}{"type": "violation", "replay": rf})
+	}
+	startWatchdog()
 	for i := from; i < to; i++ {
 		if time.Since(start) > budget {
 			break
@@ -154,7 +208,10 @@ func TestWorker(t *testing.T) {
 		cur.WriteAt([]byte(fmt.Sprintf("%d %d\n", i, seed)), 0)
 		rc := &RunCtx{Prop: prop, Engine: engName, Seed: seed, Index: i, T: t, Tier: tier,
 			W: simrt.NewTape(simrt.Mix(seed, 1)), S: simrt.NewTape(simrt.Mix(seed, 2))}
+		curIdx, curSeed = i, seed
+		wdStart.Store(time.Now().UnixNano())
 		o := runOnce(eng, rc)
+		wdStart.Store(0)
 		if digest {
 			h := fnv(rc.W.Hash(), rc.S.Hash())
 			h = fnv(h, hashStr(o.Class+"|"+o.Key))
